@@ -11,9 +11,12 @@ package agent
 import (
 	"context"
 	"fmt"
+	mrand "math/rand"
 	"net"
+	"runtime"
 	"sort"
 	"strings"
+	"sync"
 	"sync/atomic"
 	"testing"
 	"time"
@@ -265,4 +268,312 @@ func TestZZVForwardKeysMesh(t *testing.T) {
 	}
 	zzvEmit("summary", map[string]any{"evaluations": evals, "mismatches": mism, "classes": classes, "configs": len(cfgNames),
 		"level": "mesh"})
+}
+
+// ---------------------------------------------------------------------------------------------------------------
+// Part 2b of the spec on a real exit agent: request SEQUENCES on one live agent (endpoints that share a host and
+// differ in the port only) and CONCURRENT opens from several puppet peers with EQUAL stream ids.
+
+type zzvFOEndpoint struct {
+	Host string `json:"host"`
+	Port int    `json:"port"`
+}
+
+type zzvFOIn struct {
+	Endpoints map[string]zzvFOEndpoint `json:"endpoints"`
+	MeshSeqs  [][]string               `json:"mesh_seqs"`
+}
+
+// zzvFOOpen sends one STREAM_OPEN "forward:<key>" from a puppet; the reply is collected by zzvFOReply.
+func zzvFOOpen(t testing.TB, p *zzvPuppet, sid uint64, key string) {
+	_, pub, err := crypto.GenerateEphemeralKeypair()
+	if err != nil {
+		t.Fatal(err)
+	}
+	name := protocol.ForwardStreamPrefix + key
+	so := &protocol.StreamOpen{RequestID: sid + 7000, AddressType: protocol.AddrTypeDomain,
+		Address: append([]byte{byte(len(name))}, name...), EphemeralPubKey: pub}
+	p.Send(&protocol.Frame{Type: protocol.FrameStreamOpen, StreamID: sid, Payload: so.Encode()})
+}
+
+// zzvFOReply waits for the ack / error of stream sid among the frames the puppet received after index from.
+func zzvFOReply(p *zzvPuppet, from int, sid uint64, timeout time.Duration) (ack bool, code uint16, ok bool) {
+	var reply *protocol.Frame
+	ok = zzvWaitFor(timeout, func() bool {
+		got := p.Received()
+		for _, f := range got[from:] {
+			if f.StreamID == sid && (f.Type == protocol.FrameStreamOpenAck || f.Type == protocol.FrameStreamOpenErr) {
+				reply = f
+				return true
+			}
+		}
+		return false
+	})
+	if !ok {
+		return false, 0, false
+	}
+	if reply.Type == protocol.FrameStreamOpenAck {
+		return true, 0, true
+	}
+	if oe, err := protocol.DecodeStreamOpenErr(reply.Payload); err == nil {
+		code = oe.ErrorCode
+	}
+	return false, code, true
+}
+
+func TestZZVForwardOpenMesh(t *testing.T) {
+	var in zzvFOIn
+	zzvLoad(t, "ZZV_IN_OPEN", &in)
+	rounds := zzvEnvInt("ZZV_MESH_ROUNDS", 150)
+	rng := mrand.New(mrand.NewSource(zzvSeed()))
+	var keys []string
+	for k := range in.Endpoints {
+		keys = append(keys, k)
+	}
+	sort.Strings(keys)
+	sinks := map[string]*zzvFKSink{}
+	var eps []config.ForwardEndpoint
+	for _, k := range keys {
+		l, err := net.Listen("tcp", "127.0.0.1:0")
+		if err != nil {
+			t.Fatalf("forwardopen: listen: %v", err)
+		}
+		s := &zzvFKSink{key: k, l: l}
+		sinks[k] = s
+		host := "127.0.0.1"
+		if in.Endpoints[k].Host != "h1" {
+			host = "localhost"
+		}
+		eps = append(eps, config.ForwardEndpoint{Key: k, Target: net.JoinHostPort(host, fmt.Sprint(l.Addr().(*net.TCPAddr).Port))})
+		go func() {
+			for {
+				c, err := l.Accept()
+				if err != nil {
+					return
+				}
+				s.n.Add(1)
+				c.Close()
+			}
+		}()
+		t.Cleanup(func() { l.Close() })
+	}
+	snap := func() map[string]int64 {
+		out := map[string]int64{}
+		for _, k := range keys {
+			out[k] = sinks[k].n.Load()
+		}
+		return out
+	}
+	m := zzvNewMesh(t)
+	newExit := func(name string) *Agent {
+		m.Add(zzvNodeSpec{Name: name, Listen: true, Mut: func(c *config.Config) { c.Forward.Endpoints = eps }})
+		m.Start(name)
+		return m.Nodes[name].A
+	}
+	stop := func(a *Agent) {
+		ctx, cancel := context.WithTimeout(context.Background(), 5*time.Second)
+		a.StopWithContext(ctx)
+		cancel()
+	}
+	classes := map[string]int{}
+	// ---- sequences: one fresh live agent per sequence
+	evals, mism := 0, 0
+	for qi, seq := range in.MeshSeqs {
+		name := fmt.Sprintf("S%d", qi)
+		a := newExit(name)
+		p := m.DialPuppet("P"+name, name)
+		if !zzvWaitFor(5*time.Second, func() bool { return a.peerMgr.GetPeer(p.ID) != nil }) {
+			t.Fatal("forwardopen: puppet not registered")
+		}
+		for ri, rk := range seq {
+			key := rk
+			_, known := in.Endpoints[rk]
+			if !known {
+				key = keys[0][:len(keys[0])-1]
+			}
+			sid := uint64(2*ri + 11)
+			before := snap()
+			from := len(p.Received())
+			zzvFOOpen(t, p, sid, key)
+			ack, code, ok := zzvFOReply(p, from, sid, 15*time.Second)
+			if !ok {
+				t.Fatalf("forwardopen: no reply for key %q in sequence %v", key, seq)
+			}
+			if ack {
+				zzvWaitFor(2*time.Second, func() bool {
+					now := snap()
+					for _, k := range keys {
+						if now[k] > before[k] {
+							return true
+						}
+					}
+					return false
+				})
+				p.Send(&protocol.Frame{Type: protocol.FrameStreamClose, StreamID: sid})
+			} else {
+				time.Sleep(time.Millisecond)
+			}
+			after := snap()
+			var hit []string
+			for _, k := range keys {
+				if after[k] > before[k] {
+					hit = append(hit, k)
+				}
+			}
+			evals++
+			class := ""
+			switch {
+			case known && len(hit) == 0:
+				class = "known-key-not-connected"
+			case known && (len(hit) != 1 || hit[0] != rk):
+				class = "wrong-target"
+			case !known && len(hit) > 0:
+				class = "connected-for-unknown-key"
+			case !known && ack:
+				class = "unknown-key-not-refused"
+			case !known && code != protocol.ErrForwardNotFound:
+				class = "unknown-key-error-not-notfound"
+			}
+			if class != "" {
+				mism++
+				classes[class]++
+				if classes[class] <= 5 {
+					zzvEmit("mismatch", map[string]any{"class": class, "level": "mesh-sequence", "cfg": "same-host endpoints",
+						"key": fmt.Sprintf("%q", key), "keylen": len(key), "sequence": seq, "position": ri,
+						"connected_targets_of": fmt.Sprintf("%q", hit), "oracle": map[string]any{"found": known, "target": rk},
+						"impl": nil, "ack": ack, "code": code})
+				}
+			}
+		}
+		p.Close()
+		stop(a)
+	}
+	zzvEmit("summary", map[string]any{"evaluations": evals, "sequences": len(in.MeshSeqs), "mismatches": mism, "classes": classes,
+		"level": "mesh-sequence"})
+
+	// ---- concurrent opens with equal stream ids from several puppet peers
+	a := newExit("R")
+	const np = 3
+	var pups []*zzvPuppet
+	for i := 0; i < np; i++ {
+		p := m.DialPuppet(fmt.Sprintf("PR%d", i), "R")
+		pups = append(pups, p)
+	}
+	if !zzvWaitFor(5*time.Second, func() bool {
+		for _, p := range pups {
+			if a.peerMgr.GetPeer(p.ID) == nil {
+				return false
+			}
+		}
+		return true
+	}) {
+		t.Fatal("forwardopen: puppets not registered")
+	}
+	cevals, cmism, noReply, roundsRun := 0, 0, 0, 0
+	cclasses := map[string]int{}
+	sid := uint64(5001)
+	stalls := 0
+	for r := 0; r < rounds && cmism < 6 && stalls < 8; r++ { // a few offending / unanswered rounds are evidence enough
+		procs := []int{1, 2, 0}[r%3]
+		old := 0
+		if procs > 0 {
+			old = runtime.GOMAXPROCS(procs)
+		}
+		sid += 2
+		perm := rng.Perm(len(keys))
+		req := make([]string, np)
+		for i := range req {
+			req[i] = keys[perm[i%len(keys)]]
+		}
+		before := snap()
+		from := make([]int, np)
+		for i, p := range pups {
+			from[i] = len(p.Received())
+		}
+		if r%2 == 0 {
+			for i, p := range pups { // back to back
+				zzvFOOpen(t, p, sid, req[i])
+			}
+		} else {
+			var wg sync.WaitGroup
+			start := make(chan struct{})
+			for i, p := range pups {
+				wg.Add(1)
+				go func(i int, p *zzvPuppet) {
+					defer wg.Done()
+					<-start
+					zzvFOOpen(t, p, sid, req[i])
+				}(i, p)
+			}
+			close(start)
+			wg.Wait()
+		}
+		acked := map[string]int64{}
+		var nack int64
+		all := true
+		for i, p := range pups {
+			ack, _, ok := zzvFOReply(p, from[i], sid, 600*time.Millisecond)
+			if !ok {
+				ack, _, ok = zzvFOReply(p, from[i], sid, 3*time.Second)
+			}
+			if !ok {
+				noReply++
+				all = false
+				continue
+			}
+			if ack {
+				acked[req[i]]++
+				nack++
+			}
+		}
+		zzvWaitFor(5*time.Second, func() bool {
+			now := snap()
+			var tot int64
+			for _, k := range keys {
+				tot += now[k] - before[k]
+			}
+			return tot >= nack
+		})
+		if !all {
+			stalls++
+			time.Sleep(20 * time.Millisecond)
+		}
+		after := snap()
+		// judged only by what a late or missing reply cannot explain (see the handler-level test)
+		accepted := map[string]int64{}
+		asked := map[string]int64{}
+		for _, k := range req {
+			asked[k]++
+		}
+		bad := false
+		for _, k := range keys {
+			accepted[k] = after[k] - before[k]
+			if acked[k] > accepted[k] || accepted[k] > asked[k] {
+				bad = true
+			}
+		}
+		for _, p := range pups {
+			p.Send(&protocol.Frame{Type: protocol.FrameStreamClose, StreamID: sid})
+		}
+		if procs > 0 {
+			runtime.GOMAXPROCS(old)
+		}
+		cevals += np
+		roundsRun++
+		if bad {
+			cmism++
+			cclasses["wrong-target"]++
+			if cclasses["wrong-target"] <= 5 {
+				zzvEmit("mismatch", map[string]any{"class": "wrong-target", "level": "mesh-concurrent", "cfg": "same stream id, different peers",
+					"key": fmt.Sprintf("%q", req), "keylen": 0, "requests": req, "acknowledged_per_key": acked, "accepted_per_target": accepted,
+					"connected_targets_of": fmt.Sprint(accepted), "oracle": map[string]any{"acknowledged": acked}, "impl": nil,
+					"gomaxprocs": procs, "parallel_senders": r%2 == 1, "round": r, "all_replied": all})
+			}
+		}
+	}
+	for _, p := range pups {
+		p.Close()
+	}
+	zzvEmit("summary", map[string]any{"evaluations": cevals, "rounds": roundsRun, "mismatches": cmism, "classes": cclasses,
+		"no_reply": noReply, "level": "mesh-concurrent"})
 }
